@@ -47,6 +47,9 @@ CATCHING = (
     ("tuple (C, A)", lambda: (C, A)),
     ("set {A, C}", lambda: {A, C}),
     ("default Exception", None),
+    # the docstring allows naming CancelledError explicitly: it is propagated all the same
+    ("tuple (A, CancelledError)", lambda: (A, asyncio.CancelledError)),
+    ("tuple (BaseException,)", lambda: (BaseException,)),
 )
 
 
@@ -104,11 +107,12 @@ class C14(Prop):
         extra_kwargs = {"limit": 77, "delay": 0.5, "catching": 1, "function": 2, "attempt": 3} if s.chance(1, 3, "odd-kwargs") else {}
         pre_cancelled = is_async and profile != "async-sweep" and s.chance(1, 6, "pre-cancelled")
         # the wrapped callable need not be a plain function: functools.partial (no __name__), or a callable instance
-        callable_kind = s.weighted((4, 1, 1), "callable-kind")
+        callable_kind = s.weighted((4, 1, 1, 1), "callable-kind")
         sim.program = {"variant": profile, "limit": limit, "catching": catching_name, "delay": delay_name,
                        "calls": calls, "delay_table": table, "extra_kwargs": sorted(extra_kwargs),
                        "caller_swallowed_a_cancel_before": int(pre_cancelled),
-                       "wrapped_callable": ("function", "functools.partial", "callable instance")[callable_kind if not (is_async and callable_kind == 2) else 1],
+                       "wrapped_callable": ("function", "functools.partial", "callable instance", "sync facade whose __wrapped__ is async")[
+                           callable_kind if not (is_async and callable_kind >= 2) else 1],
                        "cancel_at_iteration": sim.inject_choice if profile == "async-sweep" else 0}
 
         if catching_make is None:
@@ -198,7 +202,15 @@ class C14(Prop):
         if catching_make is not None:
             kw["catching"] = catching_make()
         import functools
-        if callable_kind == 1 or (is_async and callable_kind == 2):
+        if callable_kind == 3 and not is_async:
+            # a synchronous facade (functools.wraps) over an async function: what counts is what the callable IS, not what it wraps
+            async def _async_original(*a, **k):
+                raise AssertionError("the wrapped original must never be called")
+
+            @functools.wraps(_async_original)
+            def target(*a, **k):
+                return fn(*a, **k)
+        elif callable_kind == 1 or (is_async and callable_kind >= 2):
             def _shift(_marker, *a, **k):
                 return fn(*a, **k)
             if is_async:
